@@ -41,6 +41,12 @@ fn fix_ident_conflicts(sig: &mut syn::Signature) -> ParamStatus {
             syn::FnArg::Receiver(_) => ParamStatus::Ok,
             syn::FnArg::Typed(pat_type) => match pat_type.pat.as_mut() {
                 syn::Pat::Ident(param_ident) => {
+                    // `mut x`, `ref x` and `x @ ..` become the plain identifier `x`: binding modes and
+                    // sub-patterns are not allowed (and not meaningful) in the generated signatures
+                    param_ident.by_ref = None;
+                    param_ident.mutability = None;
+                    param_ident.subpat = None;
+
                     if param_ident.ident == fn_ident_string {
                         param_ident.ident = syn::Ident::new(
                             &format!("{}_", param_ident.ident),
